@@ -3,7 +3,7 @@ SPECIFICATION Spec
 CONSTANTS
   Bases <- Bases_sim
   MaxOps = 3
-  MaxSub = 2
+  MaxSub = 1
   NPat = 3
   OpSet <- Ops_all
   TrimRef <- Ref_01
